@@ -32,7 +32,12 @@ func symMatcher(k int) *envMatcher {
 	nerr := vxrt.Choice("matcher-errors", 3)
 	names := []string{"Any", "Type", "Custom"}
 	for e := 0; e < nerr; e++ {
-		m.errs = append(m.errs, match.MatcherError{Reason: errEnv, Matcher: names[(k+e)%3] + "M" + itoa(k), Path: "p" + itoa(k) + "." + itoa(e)})
+		path := "p" + itoa(k) + "." + itoa(e)
+		if k == 0 && e == 0 {
+			// paths are arbitrary text (gjson queries contain %, quotes, ...)
+			path += vxrt.Text("path-suffix", vxrt.Len("path-suffix-len", 0, 1))
+		}
+		m.errs = append(m.errs, match.MatcherError{Reason: errEnv, Matcher: names[(k+e)%3] + "M" + itoa(k), Path: path})
 	}
 	if vxrt.Bool("matcher-rewrites") {
 		m.out = []byte(`{"m":` + itoa(k) + `}`)
